@@ -36,7 +36,7 @@ def swap_ids(spec, a, b):
     return out
 
 
-def check_case(res, base, rng, nframes, where, method, label, zero_ids):
+def check_case(res, base, rng, nframes, where, method, label, zero_ids, presolve=False):
     """where: index of the inference frame in the series"""
     # the inference frame, renumbered
     cur = gen.relabel(base, rng, gaps=not zero_ids, shift=True, flip=0.0)
@@ -95,11 +95,20 @@ def check_case(res, base, rng, nframes, where, method, label, zero_ids):
     for t in range(1, nframes):
         times[t] = times[t - 1] + (dt if {t - 1, t} == {where, nb} else float(rng.uniform(0.3, 3.0)))
     replay = {"specs": [{k: s[k] for k in ("vertices", "edges", "cells")} for s in specs], "times": times, "where": where, "method": method,
-              "T": T.tolist(), "label": label}
+              "T": T.tolist(), "label": label, "presolve": presolve}
     frames = {t: impl.frame(s, t, times[t]) for t, s in enumerate(specs)}
     try:
         f = impl.forsys_of(frames, cm=False)
         with impl.quiet():
+            if presolve:
+                # the other frames are inferred first on the same object (the statement does not depend on the history)
+                for t in range(nframes):
+                    if t != where:
+                        try:
+                            f.build_force_matrix(when=t, angle_limit=np.inf)
+                            f.solve_stress(when=t, b_matrix="velocity", allow_negatives=False)
+                        except Exception:  # noqa  (those frames carry arbitrary motions; only their side effects matter here)
+                            pass
             f.build_force_matrix(when=where, angle_limit=np.inf)
             kw = {"b_matrix": "velocity", "allow_negatives": False}
             if method:
@@ -122,11 +131,14 @@ def check_case(res, base, rng, nframes, where, method, label, zero_ids):
     tol = 2 * float(np.max(np.sum(np.abs(np.linalg.pinv(A)), axis=1))) * 5e-4 + 1e-6
     if method == "lsq":
         tol *= 10
+    if method == "lsq_linear":
+        tol += 1e-4 / float(sv[-1])      # residual left by scipy's lsq_linear at termination (see c01: eps_res), over sigma_min
     err = float(np.max(np.abs(got - T))) if len(got) == len(T) else float("inf")
     res.case((tuple(tuple(x[1:]) for x in cur["vertices"][:4]), nframes, where, method), nontrivial=M.shape[1] >= 6)
     res.count(f"method={method or 'default'}")
     res.count("last frame (backward)" if last else ("first frame" if where == 0 else "middle frame"))
     res.count("ids include 0" if zero_ids else "ids with gaps")
+    res.count("other frames solved first on the same object" if presolve else "fresh object")
     res.sample({"label": label, "frames": nframes, "where": where, "method": method, "max_error": err, "tolerance": tol, "dt": dt})
     if lost and not (last and 0 in [truth_nb[v] for v in lost] + lost):
         res.count("tracker lost a junction (C12's subject; not judged)")
@@ -154,6 +166,10 @@ def run(res, tier, seed):
         for where in wheres:
             for method in ((None, "lsq_linear") if tier == "quick" else (None, "lsq", "lsq_linear")):
                 check_case(res, base, rng, nf, where, method, label, zero_ids=bool(rng.integers(0, 2)) or where == nf - 1)
+        # histories: a series of three or more frames, every other frame inferred first on the same object
+        nf = int(rng.integers(3, 6))
+        for where in (nf - 1, nf - 2):
+            check_case(res, base, rng, nf, where, None, label + "/history", zero_ids=bool(rng.integers(0, 2)), presolve=True)
     res.traces = res.evaluations
 
 
@@ -177,6 +193,14 @@ def replay(res, obj):
     f = impl.forsys_of(frames, cm=False)
     w = inp["where"]
     with impl.quiet():
+        if inp.get("presolve"):
+            for t in range(len(inp["specs"])):
+                if t != w:
+                    try:
+                        f.build_force_matrix(when=t, angle_limit=np.inf)
+                        f.solve_stress(when=t, b_matrix="velocity", allow_negatives=False)
+                    except Exception:  # noqa
+                        pass
         f.build_force_matrix(when=w, angle_limit=np.inf)
         kw = {"b_matrix": "velocity", "allow_negatives": False}
         if inp["method"]:
